@@ -12,6 +12,8 @@ R11.4 text and file inputs go through one loader; the loaded value is root and
 from __future__ import annotations
 
 import ast
+
+from sa import twins as _twins
 from typing import Dict
 from typing import List
 from typing import Optional
@@ -301,13 +303,13 @@ class _Sym:
                 if not (len(pos) == 1 and pos[0] in self.docs and kws == {"filter_context": "filter_context"}):
                     return f"?{recv}.{name}({short(e, 60)}: arguments not forwarded)"
                 return f"R({recv})"
-            if name in ("chain", "_achain") and e.args and not e.keywords:
+            if (name == "chain" or name in _twins.ACHAIN_NAMES) and e.args and not e.keywords:
                 terms = [self.expr(a, env) for a in e.args]
                 out = terms[0]
                 for t in terms[1:]:
                     out = f"concat({out}, {t})"
                 return out
-            if name in ("_alist", "list", "iter", "tuple") and len(e.args) == 1 and not e.keywords:
+            if (name in ("list", "iter", "tuple") or name in _twins.ALIST_NAMES) and len(e.args) == 1 and not e.keywords:
                 return self.expr(e.args[0], env)
             helper = self._helper(e)
             if helper is not None:
@@ -594,7 +596,7 @@ def r11_6(ctx: Ctx) -> RuleResult:
     for name, fn in sorted(comp.methods.items()):
         for c in calls(fn.node):
             callee = ctx.callgraph.by_node.get(id(c))
-            if callee is not None and callee.callees and any(_is_generator(x) for x in callee.callees) and callee.callees[0].module.name == "jsonpath.path":
+            if callee is not None and callee.callees and any(_is_generator(x) for x in callee.callees) and callee.callees[0].module.name.startswith("jsonpath"):
                 n += 1
                 rr.ok(fn.loc(c), f"{fn.qualname}: `{short(c, 60)}` binds its arguments when called")
     if n < 2:
@@ -642,6 +644,30 @@ def r11_8(ctx: Ctx) -> RuleResult:
     return r9_6(ctx, "R11.8")
 
 
+def file_model_class():  # type: ignore[no-untyped-def]
+    """A model of an open text file (sys.stdin, io.StringIO): `read()` gives the text, it is an IOBase, nothing else is known of it."""
+    from sa.peval import UNKNOWN
+
+    from .model import MObj
+    from .model import Model
+
+    class _File(MObj):
+        def __init__(self, model: Model, text: str) -> None:
+            super().__init__(model, "$file", {})
+            self.text = text
+
+        def peval_isinstance(self, class_names: List[str]) -> Optional[bool]:
+            return "IOBase" in class_names or "TextIOBase" in class_names
+
+        def peval_getattr(self, name: str) -> object:
+            return UNKNOWN
+
+        def peval_call(self, method: str, args: List[object], kwargs: Dict[str, object]) -> object:
+            return self.text if method == "read" and not args else UNKNOWN
+
+    return _File
+
+
 def r11_9(ctx: Ctx) -> RuleResult:
     """An array or object document given as JSON text, or as a readable file, is the parsed value: `load_data` is
     executed abstractly on texts in the spellings JSON allows (blank space before and after the value, nesting,
@@ -660,19 +686,7 @@ def r11_9(ctx: Ctx) -> RuleResult:
     texts = ['[1, 2]', '{"a": 1}', ' [1]', '\n{"a": [1, {"b": null}]}', '{"a":1} ', '\t[ ]\r\n', '[]', '{}', '  {  }  ', '[[1],[2]]',
              '[true, false, null, 1.5, "x"]', '{"\u00e9": "\u00e9"}']
 
-    class _File(MObj):
-        def __init__(self, model: Model, text: str) -> None:
-            super().__init__(model, "$file", {})
-            self.text = text
-
-        def peval_isinstance(self, class_names: List[str]) -> Optional[bool]:
-            return "IOBase" in class_names or "TextIOBase" in class_names
-
-        def peval_getattr(self, name: str) -> object:
-            return UNKNOWN
-
-        def peval_call(self, method: str, args: List[object], kwargs: Dict[str, object]) -> object:
-            return self.text if method == "read" and not args else UNKNOWN
+    _File = file_model_class()
 
     for text in texts:
         want = _json.loads(text)
